@@ -89,7 +89,7 @@ a response is `<kind>/<status>/<sid>/<body>` with sid = `<other>.<seqid>` or a d
 * `40 reset`                                                             -> `ok`
 * `40 should <status>`                                                   -> `1` | `0` (transactionShouldComplete)
 * `40 arrive <call> <kind> <owner> <other> <argSeq> <seq> <cid>`         -> `reply c:<resp>` | `reply e:<code>` | `started <owner>` | `waiting <owner>`
-* `40 finish <owner> <kind> <status> <other|-> <seqid> <body> <lockOwner> <lockSeq>` -> `done <call> woken <c,...>` | `bad-op`
+* `40 finish <owner> <kind> <status> <other|-> <seqid> <body> <lockOwner> <lockSeq> <reached 0|1>` -> `done <call> <reply> woken <c,...>` | `bad-op`
 * `40 locktx <kind> <other> <argSeq> <seq> <xkind> <xstatus> <xother|-> <xseqid> <xbody>` -> `reply ... exec=<0|1>`
 -/
 namespace R40
@@ -135,14 +135,14 @@ def step (s : State) (ws : List String) : State × String :=
         | .started => "started " ++ o
         | .waiting => "waiting " ++ o)
     | _, _, _, _, _, _, _ => (s, "bad-op")
-  | ["finish", owner, k, st, o, q, b, lk, lq] =>
-    match owner.toNat?, parseResp k st o q b, lk.toNat?, lq.toNat? with
-    | some owner, some resp, some lk, some lq =>
-      let res := finish s owner ⟨resp, lk, lq⟩
+  | ["finish", owner, k, st, o, q, b, lk, lq, reached] =>
+    match owner.toNat?, parseResp k st o q b, lk.toNat?, lq.toNat?, reached.toNat? with
+    | some owner, some resp, some lk, some lq, some reached =>
+      let res := finish s owner ⟨resp, lk, lq, reached != 0⟩
       match res.2.1 with
-      | some (call, _) => (res.1, s!"done {call} woken {",".intercalate (res.2.2.map toString)}")
+      | some (call, rep) => (res.1, s!"done {call} {showReply rep} woken {",".intercalate (res.2.2.map toString)}")
       | none => (s, "bad-op")
-    | _, _, _, _ => (s, "bad-op")
+    | _, _, _, _, _ => (s, "bad-op")
   | ["locktx", k, other, argSeq, seq, xk, xst, xo, xq, xb] =>
     match k.toNat?.bind kindOfNat, other.toNat?, argSeq.toNat?, seq.toNat?, parseResp xk xst xo xq xb with
     | some k, some other, some argSeq, some seq, some x =>
